@@ -1,7 +1,8 @@
 (* The model of the encoding/asn1 DER reader is total (never Panic, never Hang) for every byte string,
-   every schema and every field parameter; it makes at most 2 * (size of the schema) calls of
-   parseTagAndLength; what it returns has the shape of the Go type. *)
-From Coq Require Import List NArith ZArith Bool Arith Lia ZifyN ZifyNat ZifyBool.
+   every schema and every field parameter; it makes at most 2 * (size of the schema) + (weight of the
+   schema) * (bytes consumed) calls of parseTagAndLength, where the weight is 0 for a schema without
+   slices; what it returns has the shape of the Go type. *)
+From Coq Require Import List NArith ZArith Bool Arith Lia ZifyN ZifyNat ZifyBool Psatz.
 From GmsmVerif Require Import Lib.Outcome Dec.Access Dec.AccessProofs Dec.Asn1Model.
 Import ListNotations.
 Local Open Scope nat_scope.
@@ -86,6 +87,22 @@ Proof.
     destruct (_ || _)%bool; cbn [obind]; [exact I|]. destruct (_ =? _)%N; exact I.
 Qed.
 
+Lemma parseBool_total bytes : no_crash (parseBool bytes).
+Proof.
+  unfold parseBool. destruct (Nat.eqb_spec (length bytes) 1) as [E|]; cbn [negb]; [|exact I].
+  destruct (at_ok bytes 0 ltac:(lia)) as [x ->]. cbn [obind].
+  destruct (_ =? _)%N; [exact I|]. destruct (_ =? _)%N; exact I.
+Qed.
+
+Lemma parseInt64_total bytes : no_crash (parseInt64 bytes).
+Proof.
+  unfold parseInt64. pose proof (checkInteger_total bytes) as C. unfold checkInteger in *.
+  destruct (Nat.eqb_spec (length bytes) 0); [exact I|].
+  destruct (at_ok bytes 0 ltac:(lia)) as [x Ex].
+  match goal with |- no_crash (obind ?e _) => destruct e; cbn [obind no_crash] in *; auto end.
+  destruct (Nat.ltb 8 _); [exact I|]. rewrite Ex. cbn [obind]. destruct (_ =? _)%N; exact I.
+Qed.
+
 Lemma parseBitString_total bytes : no_crash (parseBitString bytes).
 Proof.
   unfold parseBitString. destruct (Nat.eqb_spec (length bytes) 0); [exact I|].
@@ -120,10 +137,17 @@ Section KindInd.
   Hypothesis H3 : P KBitString.
   Hypothesis H4 : P KOID.
   Hypothesis H5 : P KRawValue.
+  Hypothesis H7 : forall d, P (KInt d).
+  Hypothesis H8 : P KBool.
+  Hypothesis H9 : P KTime.
+  Hypothesis H10 : P KAny.
+  Hypothesis H11 : forall sn e, P e -> P (KSeqOf sn e).
   Hypothesis H6 : forall rc fs, Forall (fun pf => P (snd pf)) fs -> P (KStruct rc fs).
   Fixpoint kind_ind' (k : kind) : P k :=
     match k with
     | KBigInt => H1 | KOctets => H2 | KBitString => H3 | KOID => H4 | KRawValue => H5
+    | KInt d => H7 d | KBool => H8 | KTime => H9 | KAny => H10
+    | KSeqOf sn e => H11 sn e (kind_ind' e)
     | KStruct rc fs =>
       H6 rc fs ((fix go (l : list (fparams * kind)) : Forall (fun pf => P (snd pf)) l :=
                    match l with
@@ -137,7 +161,7 @@ Lemma field_header_spec uni raw params bytes off steps :
   match field_header uni raw params bytes off steps with
   | Ok (HAbsent st) => p_optional params = true /\ (st <= steps + 2)%N
   | Ok (HElem t inner o st) =>
-      off + 2 <= o <= length bytes /\ (st <= steps + 2)%N /\ length inner <= length bytes - (off + 2)
+      off + 2 <= o <= length bytes /\ (st <= steps + 2)%N /\ length inner + off + 2 <= o
   | Err _ => True
   | Panic | Hang => False
   end.
@@ -171,37 +195,153 @@ Proof.
   rewrite firstn_length, skipn_length. lia.
 Qed.
 
+(* the ANY case *)
+Definition present (v : value) : bool := match v with VAbsent => false | _ => true end.
+
+Lemma parseAny_spec bytes off steps :
+  match parseAny bytes off steps with
+  | Ok (v, off', steps') => off + 2 <= off' <= length bytes /\ steps' = (steps + 1)%N /\ present v = true
+  | Err _ => True
+  | Panic | Hang => False
+  end.
+Proof.
+  unfold parseAny. pose proof (parseTagAndLength_spec bytes off) as T.
+  destruct (parseTagAndLength bytes off) as [[t o]| | |]; cbn [obind]; auto.
+  destruct (invalidLength o (t_length t) (length bytes)) eqn:Einv; [exact I|].
+  unfold invalidLength in Einv. apply N.ltb_ge in Einv.
+  match goal with |- context [obind ?e _] =>
+    assert (Hx : match e with Ok v => present v = true | Err _ => True | Panic | Hang => False end) end.
+  { destruct (_ && _)%bool; [|reflexivity].
+    rewrite (slice_ok bytes o (o + N.to_nat (t_length t))) by lia. cbn [obind].
+    set (inner := firstn _ _).
+    repeat match goal with |- match (if ?c then _ else _) with _ => _ end => destruct c end; try exact I; try reflexivity.
+    - pose proof (parseInt64_total inner) as B. destruct (parseInt64 inner); cbn [obind no_crash] in *; auto.
+    - pose proof (parseBitString_total inner) as B. destruct (parseBitString inner) as [[? ?]| | |]; cbn [obind no_crash] in *; auto.
+    - pose proof (parseObjectIdentifier_total inner) as B. destruct (parseObjectIdentifier inner); cbn [obind no_crash] in *; auto. }
+  match goal with |- context [obind ?e _] => destruct e; cbn [obind] in *; auto end.
+  split; [lia|split; [reflexivity|exact Hx]].
+Qed.
+
+(* the counting pass of parseSequenceOf: every element has at least two bytes *)
+Lemma count_loop_spec fuel uni bytes : forall off n steps, length bytes <= fuel + off ->
+  match count_loop fuel uni bytes off n steps with
+  | Ok (n', steps') => 2 * (n' - n) + off <= Nat.max off (length bytes) /\ n <= n' /\ steps' = (steps + N.of_nat (n' - n))%N
+  | Err _ => True
+  | Panic | Hang => False
+  end.
+Proof.
+  induction fuel as [|f IH]; intros off n steps Hf; cbn [count_loop];
+    (destruct (Nat.ltb_spec off (length bytes)) as [Hlt|Hge]; [|split; [lia|split; [lia|replace (n - n) with 0 by lia; lia]]]); [lia|].
+  pose proof (parseTagAndLength_spec bytes off) as T.
+  destruct (parseTagAndLength bytes off) as [[t o]| | |]; cbn [obind]; auto.
+  destruct uni as [[matchAny expectedTag] compoundType].
+  destruct (_ && _)%bool; [exact I|].
+  destruct (invalidLength o (t_length t) (length bytes)) eqn:Einv; [exact I|].
+  unfold invalidLength in Einv. apply N.ltb_ge in Einv.
+  specialize (IH (o + N.to_nat (t_length t)) (S n) (steps + 1)%N ltac:(lia)).
+  destruct (count_loop f _ bytes _ (S n) _) as [[n' st']| | |]; auto.
+  destruct IH as (A & B & C). split; [lia|split; [lia|]]. rewrite C. lia.
+Qed.
+
 (* what parseField guarantees for one schema *)
 Definition field_ok (k : kind) : Prop :=
   forall params bytes off steps,
     match parseField k params bytes off steps with
     | Ok (v, off', steps') =>
         off <= off' /\ (off <= length bytes -> off' <= length bytes) /\
-        (steps' <= steps + 2 * N.of_nat (ksize k))%N /\
+        (steps' <= steps + 2 * N.of_nat (ksize k) + N.of_nat (kweight k) * N.of_nat (off' - off))%N /\
         (match v with VAbsent => p_optional params | _ => conforms k v end) = true
     | Err _ => True
     | Panic | Hang => False
     end.
 
 Ltac start_field :=
-  unfold field_ok; intros params bytes off steps; cbn [parseField];
+  unfold field_ok; intros params bytes off steps; cbn [parseField is_any];
   match goal with |- context [field_header ?u ?r params bytes off steps] =>
     pose proof (field_header_spec u r params bytes off steps) as HH;
     destruct (field_header u r params bytes off steps) as [[st|t inner o st]| | |]; cbn [obind]; auto;
-    [ destruct HH as [Ho Hs]; cbn [ksize]; repeat split; try lia; exact Ho | destruct HH as (Ho & Hs & Hin) ]
+    [ destruct HH as [Ho Hs]; cbn [ksize kweight absent_value]; repeat split; try lia; try exact Ho
+    | destruct HH as (Ho & Hs & Hin) ]
   end.
+
+Lemma conforms_present k v :
+  (match v with VAbsent => false | _ => conforms k v end) = true -> conforms k v = true.
+Proof. destruct v; auto; discriminate. Qed.
+
+Lemma mix_le (a b x y z : N) : (x <= z -> y <= z -> a * x + b * y <= (a + b) * z)%N.
+Proof. intros. nia. Qed.
+
+Lemma seq_cost (m ks w L : N) : (2 * m <= L -> m + m * (2 * ks) + w * L <= (w + ks + 1) * L)%N.
+Proof. intros. nia. Qed.
 
 Lemma parseField_all : forall k, field_ok k.
 Proof.
   apply kind_ind'.
   - start_field. pose proof (parseBigInt_total inner) as B.
-    destruct (parseBigInt inner); cbn [obind no_crash] in *; auto. repeat split; try lia. cbn [ksize]. lia.
-  - start_field. repeat split; try lia. cbn [ksize]. lia.
+    destruct (parseBigInt inner); cbn [obind no_crash] in *; auto. repeat split; try lia. cbn [ksize kweight]. lia.
+  - start_field. repeat split; try lia. cbn [ksize kweight]. lia.
   - start_field. pose proof (parseBitString_total inner) as B.
-    destruct (parseBitString inner) as [[b n]| | |]; cbn [obind no_crash] in *; auto. repeat split; try lia. cbn [ksize]. lia.
+    destruct (parseBitString inner) as [[b n]| | |]; cbn [obind no_crash] in *; auto. repeat split; try lia. cbn [ksize kweight]. lia.
   - start_field. pose proof (parseObjectIdentifier_total inner) as B.
-    destruct (parseObjectIdentifier inner); cbn [obind no_crash] in *; auto. repeat split; try lia. cbn [ksize]. lia.
-  - start_field. rewrite (slice_ok bytes off o) by lia. cbn [obind]. repeat split; try lia. cbn [ksize]. lia.
+    destruct (parseObjectIdentifier inner); cbn [obind no_crash] in *; auto. repeat split; try lia. cbn [ksize kweight]. lia.
+  - start_field. rewrite (slice_ok bytes off o) by lia. cbn [obind]. repeat split; try lia. cbn [ksize kweight]. lia.
+  - intros d. start_field.
+    + destruct d; [reflexivity|exact Ho].
+    + pose proof (parseInt64_total inner) as B.
+      destruct (parseInt64 inner); cbn [obind no_crash] in *; auto. repeat split; try lia. cbn [ksize kweight]. lia.
+  - start_field. pose proof (parseBool_total inner) as B.
+    destruct (parseBool inner); cbn [obind no_crash] in *; auto. repeat split; try lia. cbn [ksize kweight]. lia.
+  - start_field. destruct (time_is_utc params t).
+    + destruct (utcTime_ok inner); [|exact I]. repeat split; try lia. cbn [ksize kweight]. lia.
+    + destruct (generalizedTime_ok inner); [|exact I]. repeat split; try lia. cbn [ksize kweight]. lia.
+  - unfold field_ok; intros params bytes off steps; cbn [parseField is_any].
+    destruct (Nat.eqb_spec off (length bytes)).
+    + destruct (p_optional params) eqn:Eo; [|exact I]. repeat split; try lia.
+    + pose proof (parseAny_spec bytes off steps) as A.
+      destruct (parseAny bytes off steps) as [[[v o] st]| | |]; auto. destruct A as (A1 & -> & A3).
+      repeat split; try lia. { cbn [ksize kweight]. lia. } destruct v; try reflexivity; discriminate.
+  - (* slices *)
+    intros sn e IHe. start_field.
+    destruct (is_any e); [exact I|].
+    pose proof (count_loop_spec (length inner) (getUniversalType e) inner 0 0 st ltac:(lia)) as C.
+    destruct (count_loop (length inner) (getUniversalType e) inner 0 0 st) as [[m st1]| | |]; cbn [obind]; auto.
+    destruct C as (C1 & _ & C3). rewrite Nat.sub_0_r, Nat.add_0_r, Nat.max_0_l in C1. rewrite Nat.sub_0_r in C3.
+    match goal with |- context [?f m 0 st1 []] => set (loop := f) end.
+    assert (HL : forall n io st0 acc, io <= length inner ->
+               match loop n io st0 acc with
+               | Ok (vs, st2) => (st2 <= st0 + N.of_nat n * (2 * N.of_nat (ksize e)) + N.of_nat (kweight e) * N.of_nat (length inner - io))%N /\
+                                 exists vs', vs = rev acc ++ vs' /\
+                                   (fix go (vs : list value) : bool := match vs with [] => true | v :: r => (conforms e v && go r)%bool end) vs' = true
+               | Err _ => True
+               | Panic | Hang => False
+               end).
+    { induction n as [|n IHn]; intros io st0 acc Hio; cbn [loop].
+      - split; [nia|]. exists []. rewrite app_nil_r. split; reflexivity.
+      - specialize (IHe noParams inner io st0).
+        destruct (parseField e noParams inner io st0) as [[[v io'] st2]| | |]; cbn [obind]; auto.
+        destruct IHe as (F1 & F2 & F3 & F4).
+        specialize (IHn io' st2 (v :: acc) (F2 Hio)).
+        destruct (loop n io' st2 (v :: acc)) as [[vs st3]| | |]; auto.
+        destruct IHn as (S3 & vs' & -> & G).
+        split.
+        + pose proof (mix_le (N.of_nat (kweight e)) (N.of_nat (kweight e)) (N.of_nat (io' - io)) (N.of_nat (length inner - io')) (N.of_nat (length inner - io)) ltac:(specialize (F2 Hio); lia) ltac:(lia)) as M.
+          assert (N.of_nat (kweight e) * N.of_nat (io' - io) + N.of_nat (kweight e) * N.of_nat (length inner - io') <= N.of_nat (kweight e) * N.of_nat (length inner - io))%N.
+          { specialize (F2 Hio). rewrite <- N.mul_add_distr_l. apply N.mul_le_mono_l. lia. }
+          lia.
+        + exists (v :: vs'). split; [cbn [rev]; rewrite <- app_assoc; reflexivity|].
+          rewrite (conforms_present e v F4), G. reflexivity. }
+    specialize (HL m 0 st1 [] ltac:(lia)).
+    destruct (loop m 0 st1 []) as [[vs st3]| | |]; cbn [obind]; auto.
+    destruct HL as (S3 & vs' & -> & G). cbn [rev app].
+    repeat split; try lia.
+    + cbn [ksize kweight]. rewrite Nat.sub_0_r in S3.
+      pose proof (seq_cost (N.of_nat m) (N.of_nat (ksize e)) (N.of_nat (kweight e)) (N.of_nat (length inner)) ltac:(lia)) as Q.
+      assert ((N.of_nat (kweight e) + N.of_nat (ksize e) + 1) * N.of_nat (length inner) <=
+              N.of_nat (kweight e + ksize e + 1) * N.of_nat (o - off))%N.
+      { replace (N.of_nat (kweight e + ksize e + 1)) with (N.of_nat (kweight e) + N.of_nat (ksize e) + 1)%N by lia.
+        apply N.mul_le_mono_l. lia. }
+      lia.
+    + cbn [conforms]. exact G.
   - intros rc fs IHfs. start_field.
     assert (Hraw : exists raw, (if rc then slice bytes off o else Ok []) = Ok raw).
     { destruct rc; [rewrite slice_ok by lia|]; eauto. }
@@ -209,7 +349,8 @@ Proof.
     match goal with |- context [?f fs 0 st []] => set (loop := f) end.
     assert (HL : forall fs0, Forall (fun pf => field_ok (snd pf)) fs0 -> forall io st0 acc, io <= length inner ->
                match loop fs0 io st0 acc with
-               | Ok (vs, st2) => (st2 <= st0 + 2 * N.of_nat (list_sum (map (fun pf => ksize (snd pf)) fs0)))%N /\
+               | Ok (vs, st2) => (st2 <= st0 + 2 * N.of_nat (list_sum (map (fun pf => ksize (snd pf)) fs0))
+                                         + N.of_nat (list_sum (map (fun pf => kweight (snd pf)) fs0)) * N.of_nat (length inner - io))%N /\
                                  exists vs', vs = rev acc ++ vs' /\
                                    (fix go (fs : list (fparams * kind)) (vs : list value) : bool :=
                                       match fs, vs with
@@ -222,27 +363,40 @@ Proof.
                | Panic | Hang => False
                end).
     { induction 1 as [|[fp fk] r Hf Hr IHr]; intros io st0 acc Hio; cbn [loop].
-      - split; [cbn; lia|]. exists []. rewrite app_nil_r. split; reflexivity.
+      - split; [cbn; nia|]. exists []. rewrite app_nil_r. split; reflexivity.
       - specialize (Hf fp inner io st0). cbn [snd] in Hf.
         destruct (parseField fk fp inner io st0) as [[[v io'] st2]| | |]; cbn [obind]; auto.
         destruct Hf as (F1 & F2 & F3 & F4).
         specialize (IHr io' st2 (v :: acc) (F2 Hio)).
         destruct (loop r io' st2 (v :: acc)) as [[vs st3]| | |]; auto.
         destruct IHr as (S3 & vs' & -> & G).
-        split; [change (list_sum (map (fun pf => ksize (snd pf)) ((fp, fk) :: r))) with (ksize fk + list_sum (map (fun pf => ksize (snd pf)) r)); lia|].
-        exists (v :: vs'). split; [cbn [rev]; rewrite <- app_assoc; reflexivity|].
-        rewrite F4, G. reflexivity. }
+        split.
+        + change (list_sum (map (fun pf => ksize (snd pf)) ((fp, fk) :: r))) with (ksize fk + list_sum (map (fun pf => ksize (snd pf)) r)).
+          change (list_sum (map (fun pf => kweight (snd pf)) ((fp, fk) :: r))) with (kweight fk + list_sum (map (fun pf => kweight (snd pf)) r)).
+          pose proof (mix_le (N.of_nat (kweight fk)) (N.of_nat (list_sum (map (fun pf => kweight (snd pf)) r)))
+                        (N.of_nat (io' - io)) (N.of_nat (length inner - io')) (N.of_nat (length inner - io))
+                        ltac:(specialize (F2 Hio); lia) ltac:(lia)) as M.
+          replace (N.of_nat (kweight fk + list_sum (map (fun pf => kweight (snd pf)) r)))
+            with (N.of_nat (kweight fk) + N.of_nat (list_sum (map (fun pf => kweight (snd pf)) r)))%N by lia.
+          lia.
+        + exists (v :: vs'). split; [cbn [rev]; rewrite <- app_assoc; reflexivity|].
+          rewrite F4, G. reflexivity. }
     specialize (HL fs IHfs 0 st [] ltac:(lia)).
     destruct (loop fs 0 st []) as [[vs st3]| | |]; cbn [obind]; auto.
     destruct HL as (S3 & vs' & -> & G). cbn [rev app].
     repeat split; try lia.
-    + cbn [ksize]. lia.
+    + cbn [ksize kweight]. rewrite Nat.sub_0_r in S3.
+      assert (N.of_nat (list_sum (map (fun pf => kweight (snd pf)) fs)) * N.of_nat (length inner) <=
+              N.of_nat (list_sum (map (fun pf => kweight (snd pf)) fs)) * N.of_nat (o - off))%N.
+      { apply N.mul_le_mono_l. lia. }
+      lia.
     + cbn [conforms]. exact G.
 Qed.
 
 Theorem Unmarshal_total k params b :
   match Unmarshal k params b with
-  | Ok (v, rest, steps) => (steps <= 2 * N.of_nat (ksize k))%N /\ length rest <= length b /\
+  | Ok (v, rest, steps) => (steps <= 2 * N.of_nat (ksize k) + N.of_nat (kweight k) * N.of_nat (length b))%N /\
+                           length rest <= length b /\
                            (match v with VAbsent => p_optional params | _ => conforms k v end) = true
   | Err _ => True
   | Panic | Hang => False
@@ -252,4 +406,14 @@ Proof.
   destruct (parseField k params b 0 0) as [[[v off] st]| | |]; cbn [obind]; auto.
   destruct F as (F1 & F2 & F3 & F4). rewrite slice_from_ok by lia. cbn [obind].
   rewrite skipn_length. repeat split; try lia; try exact F4.
+  assert (N.of_nat (kweight k) * N.of_nat (off - 0) <= N.of_nat (kweight k) * N.of_nat (length b))%N.
+  { apply N.mul_le_mono_l. lia. }
+  lia.
+Qed.
+
+(* without slices the cost depends on the schema only *)
+Corollary Unmarshal_cost_noslice k params b v rest steps :
+  kweight k = 0 -> Unmarshal k params b = Ok (v, rest, steps) -> (steps <= 2 * N.of_nat (ksize k))%N.
+Proof.
+  intros W E. pose proof (Unmarshal_total k params b) as T. rewrite E in T. rewrite W in T. lia.
 Qed.
